@@ -5,11 +5,13 @@ package main
 import (
 	"context"
 	"fmt"
+	"math/big"
 	"strconv"
 	"strings"
 	"sync"
 	"time"
 
+	"github.com/formancehq/go-libs/v5/pkg/types/metadata"
 	ledger "github.com/formancehq/ledger/internal"
 	"github.com/formancehq/ledger/internal/api/bulking"
 	ledgercontroller "github.com/formancehq/ledger/internal/controller/ledger"
@@ -23,13 +25,29 @@ import (
 func init() { commands["bulk"] = cmdBulk }
 
 type bulkCase struct {
-	Prep     []Op
+	Mode     string // schema enforcement mode of the stack: strict | audit
+	Prep     []SOp  // executed first through the controller: schema inserts and writes (with their own schemaVersion)
 	Now      int64
 	Atomic   bool
 	Cont     bool
 	Parallel bool
-	Perm     []int // parallel: completion order
+	Perm     []int  // parallel: completion order
+	Version  string // ?schemaVersion= of the bulk request: forwarded by processElement to every element
 	Ops      []Op
+}
+
+func sopsSx(ops []SOp) string {
+	s := make([]string, len(ops))
+	for i, o := range ops {
+		s[i] = o.sx()
+	}
+	return L(s...)
+}
+
+// which CREATE_TRANSACTION elements are sent as a Numscript (`script.plain`) instead of `postings`: decided by the
+// element's content so that two equal requests are encoded equally (the idempotency fingerprint covers the script text)
+func scriptEncoded(o Op) bool {
+	return o.Kind == "create" && len(o.Post) == 1 && !o.Force && o.Post[0].Src != o.Post[0].Dst && o.Post[0].Amt.Bit(0) == 1
 }
 
 func (c bulkCase) sx() string {
@@ -37,7 +55,11 @@ func (c bulkCase) sx() string {
 	for i, p := range c.Perm {
 		perm[i] = fmt.Sprint(p)
 	}
-	return L("bulk", allOn.sx(), opsSx(c.Prep), fmt.Sprint(c.Now), b01(c.Atomic), b01(c.Cont), b01(c.Parallel), L(perm...), opsSx(c.Ops))
+	enc := make([]string, len(c.Ops))
+	for i, o := range c.Ops {
+		enc[i] = b01(scriptEncoded(o))
+	}
+	return L("sbulk", c.Mode, sopsSx(c.Prep), fmt.Sprint(c.Now), b01(c.Atomic), b01(c.Cont), b01(c.Parallel), L(perm...), Q(c.Version), opsSx(c.Ops), L(append([]string{"script_encoded"}, enc...)...))
 }
 
 func parseBulkCase(line string) bulkCase {
@@ -51,7 +73,9 @@ func parseBulkCase(line string) bulkCase {
 		_, o := parseHistCase(L("hist", allOn.sx(), L(items...)))
 		return o
 	}
-	c := bulkCase{Prep: ops(sx.List[2]), Now: atoi(sx.List[3].Atom), Atomic: sx.List[4].Atom == "1", Cont: sx.List[5].Atom == "1", Parallel: sx.List[6].Atom == "1", Ops: ops(sx.List[8])}
+	mode, prep := parseSHistCase(L("shist", sx.List[1].Atom, sxString(sx.List[2])))
+	c := bulkCase{Mode: mode, Prep: prep, Now: atoi(sx.List[3].Atom), Atomic: sx.List[4].Atom == "1", Cont: sx.List[5].Atom == "1", Parallel: sx.List[6].Atom == "1",
+		Version: sx.List[8].Atom, Ops: ops(sx.List[9])}
 	for _, p := range sx.List[7].List {
 		c.Perm = append(c.Perm, int(atoi(p.Atom)))
 	}
@@ -124,24 +148,61 @@ func (c *orderedCtrl) DeleteAccountMetadata(ctx context.Context, p ledgercontrol
 }
 
 type bulkStack struct {
+	sr   *SRun
 	st   *Stack
 	ctx  context.Context
 	ctrl ledgercontroller.Controller
 }
 
-func newBulkStack(prep []Op) *bulkStack {
-	st := NewStack(StackOpts{})
-	ctx := context.Background()
-	must(st.Sys.CreateLedger(ctx, "l1", ledger.Configuration{Bucket: "_default", Features: allOn.set()}))
-	ctrl, err := st.Sys.GetLedgerController(ctx, "l1")
-	must(err)
-	for _, o := range prep {
-		st.PG.Clock = pgsem.TS(o.Now)
-		runOp(ctx, ctrl, o)
+func newBulkStack(mode string, prep []SOp) *bulkStack {
+	sr := newSRun(mode)
+	for _, so := range prep {
+		sr.St.PG.Clock = pgsem.TS(so.Op.Now)
+		sr.exec(so)
 	}
-	return &bulkStack{st, ctx, ctrl}
+	return &bulkStack{sr, sr.St, sr.ctx, sr.ctrl}
 }
-func (b *bulkStack) snap() string { return b.st.Snapshot(b.ctx, b.ctrl, "l1", allOn).sx() }
+
+// ledger snapshot through all read paths + raw tables, plus the schemas table and logs.schema_version
+func (b *bulkStack) snap() string {
+	return b.st.Snapshot(b.ctx, b.ctrl, "l1", allOn).sx() + " " + b.sr.extra()
+}
+
+// the element as a request of its own: same input, same idempotency key, same schemaVersion, handed to the controller
+// directly (no bulking code involved); a script-encoded CREATE is sent as the same script
+func (b *bulkStack) standalone(version string, o Op) OpResult {
+	if !scriptEncoded(o) {
+		return b.sr.exec(SOp{Version: version, Op: o})
+	}
+	rs := ledgercontroller.RunScript{
+		Script:    ledgercontroller.Script{Plain: tplScript(o.Post), Vars: map[string]string{}},
+		Reference: o.Ref,
+		Metadata:  kvmap(o.Meta),
+	}
+	if o.TS != nil {
+		rs.Timestamp.Time = tsOf(*o.TS)
+	}
+	in := ledgercontroller.CreateTransaction{RunScript: rs, AccountMetadata: map[string]metadata.Metadata{}}
+	for a, m := range o.AccMeta {
+		in.AccountMetadata[a] = kvmap(m)
+	}
+	var res OpResult
+	func() {
+		defer func() {
+			if r := recover(); r != nil {
+				res = OpResult{Panic: fmt.Sprint(r)}
+			}
+		}()
+		log, ct, hit, err := b.ctrl.CreateTransaction(b.ctx, ledgercontroller.Parameters[ledgercontroller.CreateTransaction]{IdempotencyKey: o.IK, Input: in, SchemaVersion: version})
+		res.Class = sclassify(err)
+		if err == nil {
+			res.LogID, res.Hit = int64(*log.ID), hit
+			id := int64(*ct.Transaction.ID)
+			res.TxID = &id
+		}
+	}()
+	return res
+}
 
 type bulkRun struct {
 	Case          bulkCase
@@ -163,11 +224,11 @@ func entrySx(e BulkAPIResult) string {
 }
 
 func runBulkCase(c bulkCase) *bulkRun {
-	b := newBulkStack(c.Prep)
+	b := newBulkStack(c.Mode, c.Prep)
 	run := &bulkRun{Case: c, Before: b.snap()}
 	b.st.PG.Clock = pgsem.TS(c.Now)
-	opts := bulking.BulkingOptions{Atomic: c.Atomic, ContinueOnFailure: c.Cont, Parallel: c.Parallel}
-	body := bulkBody(c.Ops)
+	opts := bulking.BulkingOptions{Atomic: c.Atomic, ContinueOnFailure: c.Cont, Parallel: c.Parallel, SchemaVersion: c.Version}
+	body := bulkBodyEnc(c.Ops)
 	if c.Parallel {
 		oc := &orderedCtrl{Controller: b.ctrl, n: len(c.Ops), pos: map[int]int{}}
 		for p, i := range c.Perm {
@@ -204,6 +265,13 @@ func resSx(o Op, r OpResult) string {
 		if strings.HasPrefix(c, "other:") {
 			return L("err", "other", Q(c[6:]), "ERROR")
 		}
+		// the API codes conflate: schema not found answers NOT_FOUND, a schema validation error answers VALIDATION
+		switch c {
+		case "schema_not_found":
+			c = "not_found"
+		case "schema_validation":
+			c = "idempotency_input"
+		}
 		return L("err", c, "ERROR")
 	}
 	tx := "nil"
@@ -222,7 +290,7 @@ func monitorC32(r *bulkRun) []string {
 	if len(r.Entries) != len(c.Ops) {
 		return []string{fmt.Sprintf("%d results for %d elements [result-count]", len(r.Entries), len(c.Ops))}
 	}
-	b2 := newBulkStack(c.Prep)
+	b2 := newBulkStack(c.Mode, c.Prep)
 	b2.st.PG.Clock = pgsem.TS(c.Now)
 	order := make([]int, len(c.Ops))
 	for i := range order {
@@ -238,7 +306,7 @@ func monitorC32(r *bulkRun) []string {
 			standalone[i] = L("err", "cancelled", "ERROR")
 			continue
 		}
-		res := runOp(b2.ctx, b2.ctrl, c.Ops[i])
+		res := b2.standalone(c.Version, c.Ops[i])
 		standalone[i] = resSx(c.Ops[i], res)
 		if res.Class != "none" {
 			failed = true
@@ -301,21 +369,95 @@ func sameMultiset(a, b []string) bool {
 	return len(a) == len(b)
 }
 
+// one element / prepared write: every field processElement forwards is varied (CREATE: postings or script, timestamp,
+// reference, metadata, accountMetadata, force; REVERT: id, force, atEffectiveDate; ADD/DELETE_METADATA: target type, id, metadata / key)
+func genBulkOp(r *Rng, now int64, ntx int64, accts []string) Op {
+	k := r.Intn(100)
+	var o Op
+	md := func() []KV { return []KV{{Pick(r, []string{"k1", "k2", "role"}), Pick(r, []string{"a", "b"})}} }
+	switch {
+	case k < 45:
+		src := Pick(r, []string{"world", "world", accts[1], accts[2], "nobody"})
+		o = mkCreate(src, Pick(r, accts), int64(1+r.Intn(60)), now)
+		if r.Chance(15) {
+			o.Post = append(o.Post, Posting{"world", Pick(r, accts), "EUR", big.NewInt(int64(1 + r.Intn(9)))})
+		}
+		if r.Chance(15) {
+			o.Ref = Pick(r, []string{"r1", "r2"})
+		}
+		if r.Chance(30) {
+			t := Pick(r, []int64{now - 60*1000000, now - 1000000, now, evBase})
+			o.TS = &t
+		}
+		if r.Chance(30) {
+			o.Meta = md()
+		}
+		if r.Chance(20) {
+			o.AccMeta = map[string][]KV{Pick(r, accts): md()}
+		}
+		o.Force = r.Chance(15)
+	case k < 60:
+		o = Op{Kind: "revert", TxID: 1 + int64(r.Intn(int(ntx)+2)), Force: r.Chance(50), AtEff: r.Chance(40), Now: now}
+	case k < 70:
+		o = Op{Kind: "setmeta", TxID: 1 + int64(r.Intn(int(ntx)+2)), Meta: md(), Now: now}
+	case k < 84:
+		o = Op{Kind: "setmeta", IsAcc: true, TgtAcc: Pick(r, accts), Meta: md(), Now: now}
+	case k < 92:
+		o = Op{Kind: "delmeta", TxID: 1 + int64(r.Intn(int(ntx)+2)), Key: Pick(r, []string{"k1", "k2"}), Now: now}
+	default:
+		o = Op{Kind: "delmeta", IsAcc: true, TgtAcc: Pick(r, accts), Key: Pick(r, []string{"k1", "k2", "role"}), Now: now}
+	}
+	if r.Chance(25) {
+		o.IK = Pick(r, []string{"ik1", "ik2", "ik3"})
+	}
+	return o
+}
+
 func genBulkCase(r *Rng) bulkCase {
-	c := bulkCase{}
+	c := bulkCase{Mode: Pick(r, []string{"audit", "strict"})}
 	now := evBase + 10*1000000
+	accts := genAccounts
+	// 45% of the ledgers have a schema: a chart whose patterns give default metadata to some accounts (users:$id, bank, users:main)
+	var versions []string
+	if r.Chance(45) {
+		accts = append(append([]string{}, sAccounts...), "users:7", "users:9")
+		for _, v := range []string{"v1", "v2"} {
+			if v == "v2" && !r.Chance(25) {
+				break
+			}
+			now += 1000000
+			c.Prep = append(c.Prep, SOp{Schema: true, Version: v, Chart: genSchemaChart(r), Op: Op{Now: now}})
+			versions = append(versions, v)
+		}
+	}
+	pickVersion := func() string {
+		k := r.Intn(100)
+		switch {
+		case len(versions) > 0 && k < 60:
+			return Pick(r, versions)
+		case k < 85:
+			return ""
+		default:
+			return "nope" // unknown version: rejected in both modes
+		}
+	}
 	np := r.Intn(5)
 	for i := 0; i < np; i++ {
 		now += 1000000
-		o := genEvOp(r, now, int64(i))
+		o := genBulkOp(r, now, int64(i), accts)
 		if i == 0 || r.Chance(50) {
-			o = mkCreate("world", Pick(r, genAccounts[1:]), int64(20+r.Intn(100)), now)
+			o = mkCreate("world", Pick(r, accts[1:]), int64(20+r.Intn(100)), now)
 		}
 		o.IK = ""
-		c.Prep = append(c.Prep, o)
+		v := ""
+		if len(versions) > 0 && (c.Mode == "strict" || r.Chance(50)) {
+			v = Pick(r, versions)
+		}
+		c.Prep = append(c.Prep, SOp{Version: v, Op: o})
 	}
 	now += 1000000
 	c.Now = now
+	c.Version = pickVersion()
 	switch r.Intn(6) {
 	case 0:
 		c.Atomic = true
@@ -329,13 +471,13 @@ func genBulkCase(r *Rng) bulkCase {
 		c.Parallel, c.Cont = true, true
 	}
 	n := 1 + r.Intn(7)
-	if r.Chance(4) { // large bulk: slices.SortFunc leaves insertion sort above 12 elements (all ElementIDs are equal: order must survive)
+	if r.Chance(4) { // large bulk: slices.SortFunc leaves insertion sort above 12 elements
 		n = 13 + r.Intn(60)
 	}
 	for i := 0; i < n; i++ {
-		o := genEvOp(r, now, int64(np+i))
-		if r.Chance(35) { // keep a good share of succeeding elements
-			o = mkCreate("world", Pick(r, genAccounts[1:]), int64(1+r.Intn(50)), now)
+		o := genBulkOp(r, now, int64(np+i), accts)
+		if r.Chance(30) { // keep a good share of succeeding elements
+			o = mkCreate("world", Pick(r, accts[1:]), int64(1+r.Intn(50)), now)
 		}
 		if c.Parallel {
 			o.IK = fmt.Sprintf("par-%d", i)
@@ -374,6 +516,28 @@ func cmdBulk(args []string) int {
 			mode += "_cont"
 		}
 		out.Stats["mode_"+mode]++
+		hasSchema := false
+		for _, so := range run.Case.Prep {
+			hasSchema = hasSchema || so.Schema
+		}
+		if hasSchema {
+			out.Stats["schema_"+run.Case.Mode]++
+			switch run.Case.Version {
+			case "":
+				out.Stats["schema_version_absent"]++
+			case "nope":
+				out.Stats["schema_version_unknown"]++
+			default:
+				out.Stats["schema_version_present"]++
+			}
+		} else if run.Case.Version != "" {
+			out.Stats["noschema_version_unknown"]++
+		}
+		for _, o := range run.Case.Ops {
+			if scriptEncoded(o) {
+				out.Stats["elements_script"]++
+			}
+		}
 		nok, nerr := 0, 0
 		for _, e := range run.Entries {
 			if e.ResponseType == "ERROR" {
